@@ -106,12 +106,16 @@ def make_target(lab):
     return P.expose(Target)
 
 
+def has_corr(tok):
+    return tok % 3 != 2        # every third request travels without a correlation id: the daemon must give it a fresh one
+
+
 def request_bytes(kind, tok, seq, ser):
     from Pyro5 import protocol
     from Pyro5.callcontext import current_context
     ann = {"R%03d" % tok: b"r"}
     saved = current_context.correlation_id
-    current_context.correlation_id = uuid.UUID(int=tok)
+    current_context.correlation_id = uuid.UUID(int=tok) if has_corr(tok) else None
     try:
         def inv(m, args, flags=0):
             from Pyro5 import serializers
@@ -208,7 +212,7 @@ def run_scripts(scripts, mode, seed):
                     seqs[c] += 1
                     rc = clients[c]
                     lab.log.append({"e": "Req", "c": rc.cid, "tok": tok, "seq": seqs[c], "sets": kind in SETS, "kind": kind, "ser": ser_id,
-                                    "oneway": kind.startswith("oneway")})
+                                    "oneway": kind.startswith("oneway"), "corr": tok if has_corr(tok) else -1})
                     rc.send(request_bytes(kind, tok, seqs[c], ser))
                     sc.quiesce()
                     collect(c)
@@ -218,7 +222,8 @@ def run_scripts(scripts, mode, seed):
                         tok += 1
                         seqs[c] += 1
                         rc = clients[c]
-                        lab.log.append({"e": "Req", "c": rc.cid, "tok": tok, "seq": seqs[c], "sets": False, "kind": kind, "ser": ser_id, "oneway": False})
+                        lab.log.append({"e": "Req", "c": rc.cid, "tok": tok, "seq": seqs[c], "sets": False, "kind": kind, "ser": ser_id, "oneway": False,
+                                        "corr": tok if has_corr(tok) else -1})
                         rc.send(request_bytes(kind, tok, seqs[c], ser))
                         sc.quiesce()
                         collect(c)
